@@ -89,7 +89,10 @@ def rnd_desc(rng: random.Random, i: int) -> dict[str, Any]:
             tl.append([t, 'force_remove', n])
     # make sure every object is eventually deleted and foreign finalizers go away, so that "eventually" can be judged
     t = round(t + rng.choice([0.5, 3.0]), 3)
+    keep_alive = rng.random() < 0.3      # some objects stay: the finalizer's presence is judged on live objects too
     for n in names:
+        if keep_alive and not any(op[1] in ('delete', 'force_remove') and op[2] == n for op in tl):
+            continue
         tl.append([t, 'delete', n])
         for f in FIN_FOREIGN:
             tl.append([round(t + rng.choice([0.2, 2.0, 8.0]), 3), 'fin_del', n, f])
@@ -114,7 +117,9 @@ def rnd_desc(rng: random.Random, i: int) -> dict[str, Any]:
     if rng.random() < 0.5:
         # a foreign write slipped right before the k-th JSON-patch request of the operator -> 422
         slip = rng.choice([['edit', 'o0', {'metadata': {'labels': {'slip': str(i)}}}], ['fin_add', 'o0', 'slip/fin', rng.choice([0, None])], ['edit', 'o0', {'status': {'slip': i}}]])
-        desc['faults'] = [{'client': None, 'match': {'kind': 'patch', 'ctype': 'application/json-patch+json'}, 'nth': rng.choice([1, 2, 3, [1, 2], [2, 3, 4]]),
+        # ... or before the k-th merge-patch (which may precede a JSON-patch of the same cycle: index shifts in the finalizer list)
+        ctype = rng.choice(['application/json-patch+json', 'application/json-patch+json', 'application/merge-patch+json'])
+        desc['faults'] = [{'client': None, 'match': {'kind': 'patch', 'ctype': ctype}, 'nth': rng.choice([1, 2, 3, [1, 2], [2, 3, 4], [3, 4, 5, 6]]),
                            'actions': [['slip', {'op': slip}]]}]
         tl.append([round(t + 10, 3), 'fin_del', 'o0', 'slip/fin'])
     if 'faults' not in desc and rng.random() < 0.2 and not any(op[1] == 'stop_wait' for op in tl):
@@ -143,6 +148,19 @@ def directed() -> list[dict[str, Any]]:
             'timeline': [[0, 'start', 'op1'], [1, 'create', 'a', {'spec': {'x': 0}, 'metadata': {'finalizers': ['other/fin']}}], [5, 'delete', 'a'], [9, 'fin_del', 'a', 'other/fin'],
                          [12, 'fin_del', 'a', 'slip/fin']],
             'faults': [{'client': None, 'match': {'kind': 'patch', 'ctype': 'application/json-patch+json'}, 'nth': nth, 'actions': [['slip', {'op': ['fin_add', 'a', 'slip/fin', 0]}]]}]})
+    # a foreign finalizer is inserted IN FRONT while the (slow) deletion handler runs: the release must not remove it by index
+    out.append({'name': 'index-shift', 'settings': S, 'quiet': 30.0, 'horizon': 500.0, 'handlers': [
+        {'kind': 'create', 'id': 'c1'}, {'kind': 'delete', 'id': 'd1', 'script': [['slow', 1.5, ['ok']]]}],
+        'timeline': [[0, 'start', 'op1'], [1, 'create', 'a', {'spec': {'x': 0}}], [5, 'delete', 'a'], [5.5, 'fin_add', 'a', 'other/fin', 0], [20, 'fin_del', 'a', 'other/fin']]})
+    for nth in (2, 3, 4, 5):
+        out.append({'name': f'index-shift-slip{nth}', 'settings': S, 'quiet': 30.0, 'horizon': 500.0, 'handlers': [
+            {'kind': 'create', 'id': 'c1'}, {'kind': 'delete', 'id': 'd1', 'script': [['temp', 1], ['ok']]}],
+            'timeline': [[0, 'start', 'op1'], [1, 'create', 'a', {'spec': {'x': 0}}], [5, 'delete', 'a'], [20, 'fin_del', 'a', 'slip/fin']],
+            'faults': [{'client': None, 'match': {'kind': 'patch', 'ctype': 'application/merge-patch+json'}, 'nth': nth, 'actions': [['slip', {'op': ['fin_add', 'a', 'slip/fin', 0]}]]}]})
+    # a daemon that exits on its own is no reason to keep the finalizer on a live object
+    out.append({'name': 'selfexit-live', 'settings': S, 'quiet': 30.0, 'horizon': 500.0, 'handlers': [
+        {'kind': 'create', 'id': 'c1'}, {'kind': 'daemon', 'id': 'dm1', 'persona': {'type': 'selfexit', 'after': 3.0}}],
+        'timeline': [[0, 'start', 'op1'], [1, 'create', 'a', {'spec': {'x': 0}}], [8, 'edit', 'a', {'spec': {'x': 1}}]]})
     # handlers stop requiring the object (label toggled off) -> finalizer removed without deletion; toggled on -> added again
     out.append({'name': 'unrequire', 'settings': S, 'quiet': 30.0, 'horizon': 500.0, 'handlers': [
         {'kind': 'create', 'id': 'c1'}, {'kind': 'delete', 'id': 'd1', 'opts': {'labels': {'l': 'a'}}},
